@@ -1,4 +1,5 @@
 import GB.C01.Ghost
+import GB.C01.Spec
 /-
   The ghost history of a state reached by a run equals the projection of the run's labels: this turns
   the state invariants into statements about traces (what the client and the target observed).
@@ -19,6 +20,9 @@ structure Tracks (s : State M E) (tr : List (Label M E)) : Prop where
   finals : s.gFinals = outFinals tr
   fault : s.gFault = hasFault tr
   closeSend : s.gCloseSend = closeSendCalled tr
+  errs : s.gErrs = peerErrors tr
+  ctxs : s.gCtxs = ctxDones tr
+  clientEOF : s.gClientEOF = clientClosed tr
 
 set_option maxHeartbeats 4000000 in
 theorem step_ghost (p : Params) (s s' : State M E) (l : Label M E) (hs : step p s l = some s') :
@@ -28,7 +32,10 @@ theorem step_ghost (p : Params) (s s' : State M E) (l : Label M E) (hs : step p 
     s'.gIncSent = s.gIncSent ++ (incSendMsg? l).toList ∧
     s'.gFinals = s.gFinals ++ (outFinal? l).toList ∧
     s'.gFault = (s.gFault || faultLabel l) ∧
-    s'.gCloseSend = (s.gCloseSend || isCloseSend l) := by
+    s'.gCloseSend = (s.gCloseSend || isCloseSend l) ∧
+    s'.gErrs = s.gErrs ++ (peerErr? l).toList ∧
+    s'.gCtxs = s.gCtxs ++ (ctxWhy? l).toList ∧
+    s'.gClientEOF = (s.gClientEOF || isClientEOF l) := by
   obtain ⟨s1, hc, rfl⟩ := step_core hs
   clear hs
   cases l <;> simp only [stepCore] at hc <;> (repeat' split at hc) <;> (try cases hc) <;>
@@ -50,8 +57,8 @@ theorem filterMap_snoc {α β : Type} (f : α → Option β) (xs : List α) (x :
 
 theorem tracks_step (p : Params) (s s' : State M E) (tr : List (Label M E)) (l : Label M E)
     (h : Tracks s tr) (hs : step p s l = some s') : Tracks s' (tr ++ [l]) := by
-  obtain ⟨h1, h2, h3, h4, h5, h6, h7⟩ := step_ghost p s s' l hs
-  obtain ⟨t1, t2, t3, t4, t5, t6, t7⟩ := h
+  obtain ⟨h1, h2, h3, h4, h5, h6, h7, h8, h9, h10⟩ := step_ghost p s s' l hs
+  obtain ⟨t1, t2, t3, t4, t5, t6, t7, t8, t9, t10⟩ := h
   constructor
   · rw [h1, t1]; exact (filterMap_snoc _ _ _).symm
   · rw [h2, t2]; exact (filterMap_snoc _ _ _).symm
@@ -60,6 +67,9 @@ theorem tracks_step (p : Params) (s s' : State M E) (tr : List (Label M E)) (l :
   · rw [h5, t5]; exact (filterMap_snoc _ _ _).symm
   · simp [hasFault, h6, t6]
   · simp [closeSendCalled, h7, t7]
+  · rw [h8, t8]; exact (filterMap_snoc _ _ _).symm
+  · rw [h9, t9]; exact (filterMap_snoc _ _ _).symm
+  · simp [clientClosed, h10, t10]
 
 /-- runs, as a relation that remembers the trace (left-to-right) -/
 inductive Run (p : Params) : List (Label M E) → State M E → Prop
